@@ -527,13 +527,22 @@ def run(ctx):
             if oa is not None and oa[0] == "idx" and isinstance(oa[2], SliceV) and isinstance(oa[2].hi, Form) \
                     and (isinstance(oa[2].lo, Const) and oa[2].lo.v is None or (isinstance(oa[2].lo, Form) and oa[2].lo.is_zero())):
                 nl = oa[2].hi.subst(_unint)                    # argmax(corr[:m]): m candidates
+                if isinstance(nl, Form) and nl.rational() is not None and nl.rational() < 0:
+                    # corr[:-k]: "all lags but the last k".  How many lags there are depends on the record (min(len, 2l) - l + 1): for a
+                    # record of two patterns or more the last one is lag l, for a shorter record it is a legitimate delay < l
+                    ctx.violation("C20.5", fs_, rets[0].node, "SYNC: candidate delays",
+                                  f"the search covers every lag but the last {-int(nl.rational())}: that is the delays 0 .. l-1 only when the record holds two patterns; for a record between one and two "
+                                  "patterns long the dropped lag is the true delay (record of l + d samples delayed by d: index d-1 is returned)")
+                    nl = None
             else:
                 nl = W_ - L_ + 1                               # 'valid' mode: W - l + 1 lags
             ex = []
-            for sp in (1, 2, 16):
+            for sp in ((1, 2, 16) if nl is not None else ()):
                 d_ = (nl - L_).subst(lambda a, sp=sp: Form.num(sp) if a == ("sym", "sps") else None)
                 ex.append(d_.rational() if isinstance(d_, Form) else None)
-            if all(v is not None for v in ex):
+            if nl is None:
+                pass
+            elif all(v is not None for v in ex):
                 ctx.check("C20.5", all(v <= 0 for v in ex), fs_, rets[0].node, "SYNC: candidate delays", "0 .. l-1 only",
                           f"the search covers {nl!r} lags for a pattern of l = {L_!r} samples: lag l (the alignment of lag 0 one pattern later) is a candidate, ties with lag 0 on a repeated "
                           "pattern and wins about half the time under noise - delay 0 is reported as l and the returned signal is empty")
